@@ -3,7 +3,9 @@
 id=$1; tier=$2; shift 2
 cd /repo || exit 2
 git diff --quiet || { echo "/repo is dirty"; exit 2; }
-git apply /verif/seeded/$id/patch.diff || exit 2
+# a change whose original patch no longer applies (the area was touched by a later fix) is kept with a rebased equivalent
+p=/verif/seeded/$id/patch_rebased.diff; [ -f "$p" ] || p=/verif/seeded/$id/patch.diff
+git apply "$p" || exit 2
 cd /verif
 for c in "$@"; do
   ./check $c --tier $tier > /tmp/seed-$id-$c.log 2>&1; code=$?
